@@ -49,7 +49,39 @@ static Janet cfun_count(int32_t argc, Janet *argv) {
     if (!janet_checktype(argv[0], JANET_ABSTRACT)) janet_panic("abstract expected");
     return janet_wrap_integer(janet_abstract_head(janet_unwrap_abstract(argv[0]))->gc.data.refcount);
 }
+/* (rc/capi-take c): janet_channel_take on thread channel c from C; then a second OS thread (own VM) does janet_channel_give on
+ * the same channel.  Returns [take-result give-completed]: if janet_channel_take returned with the channel mutex held, the
+ * second thread blocks for ever (3 s hang detector). */
+#include <pthread.h>
+#include <unistd.h>
+static volatile int give_done;
+static void *give_thread(void *p) {
+    janet_init();
+    janet_channel_give((JanetChannel *) p, janet_wrap_integer(7));
+    give_done = 1;
+    janet_deinit();
+    return NULL;
+}
+static Janet cfun_capi_take(int32_t argc, Janet *argv) {
+    janet_fixarity(argc, 1);
+    JanetChannel *ch = janet_getchannel(argv, 0);
+    Janet out;
+    int r = janet_channel_take(ch, &out);
+    give_done = 0;
+    pthread_t t;
+    pthread_create(&t, NULL, give_thread, ch);
+    pthread_detach(t);
+    for (int i = 0; i < 300 && !give_done; i++) usleep(10000);
+    Janet tup[2] = {janet_wrap_integer(r), janet_wrap_boolean(give_done)};
+    return janet_wrap_tuple(janet_tuple_n(tup, 2));
+}
+/* (rc/capi-make-threaded n): janet_channel_make_threaded from C */
+static Janet cfun_capi_make(int32_t argc, Janet *argv) {
+    janet_fixarity(argc, 1);
+    return janet_wrap_abstract(janet_channel_make_threaded((uint32_t) janet_getinteger(argv, 0)));
+}
 static const JanetReg cfuns[] = {
+    {"rc/capi-take", cfun_capi_take, NULL}, {"rc/capi-make-threaded", cfun_capi_make, NULL},
     {"rc/probe", cfun_probe, NULL}, {"rc/watch", cfun_watch, NULL}, {"rc/count", cfun_count, NULL}, {NULL, NULL, NULL}
 };
 
